@@ -112,7 +112,8 @@ _BIN = {
 }
 _PURE_METHODS = {
     bytes: {"startswith", "endswith", "hex", "decode", "lstrip", "rstrip", "strip", "find", "index", "count", "join"},
-    str: {"startswith", "endswith", "lower", "upper", "strip", "lstrip", "rstrip", "find", "index", "encode", "split", "count", "isdigit", "replace", "format", "join"},
+    str: {"startswith", "endswith", "lower", "upper", "strip", "lstrip", "rstrip", "find", "rfind", "index", "encode", "split", "rsplit", "splitlines", "partition", "rpartition", "count",
+          "isdigit", "isalpha", "isalnum", "islower", "isupper", "isspace", "isidentifier", "replace", "format", "join", "zfill", "title", "capitalize", "casefold", "swapcase", "ljust", "rjust"},
     list: {"index", "count", "copy", "pop", "append", "extend", "insert", "remove", "clear", "reverse", "sort"},
     set: {"add", "discard", "remove", "copy", "union", "issubset", "issuperset", "isdisjoint", "intersection"},
     bytearray: {"append", "extend", "hex"},
